@@ -1,5 +1,5 @@
 (* Composite correspondence driver (C09, C10, C11).
-   usage: composite_model [fix=0|1] [fix11=0|1] [fuel=N] [cap=N states] [budget=seconds per trace] [cover=0|1]
+   usage: composite_model [fix=0|1] [fix11=0|1] [stale=0|1] [lc=0|1] [fuel=N] [cap=N states] [budget=seconds per trace] [cover=0|1]
    stdin: the output of harness/cmd/composite:
      CASE id family pool n name:style:exit:rk ...   SCRIPT json   E <event> ...   OUTCOME o   END
      M old new v          (check A, hasMembershipChanged observed through Reload)
@@ -10,7 +10,8 @@ open Util
 
 let fix = ref true
 let fix11 = ref true
-let stale = ref false
+let stale = ref true
+let lc = ref true
 let fuel = ref 20000
 let cap = ref 3000
 let budget = ref 2.5
@@ -143,7 +144,8 @@ let witness (p : params) (evs : event array) : label list option =
 type case = {
   mutable id : string; mutable family : string; mutable pool : cspec list;
   mutable evs : (event * string) list; mutable blocked : string; mutable lives : int list;
-  mutable parks : int; mutable outcome : string; mutable notes : string list }
+  mutable parks : int; mutable outcome : string; mutable notes : string list;
+  mutable helds : (int * int) list (* (number of model events before the observation, sequence number held) *) }
 
 let count f l = List.length (List.filter f l)
 
@@ -167,7 +169,7 @@ let nparks = ref 0 and nblocked = ref 0 and nevents = ref 0 and nwit = ref 0
 
 let finish (c : case) =
   incr ncases;
-  let p = { pool = c.pool; fix_c09 = !fix; fix_c11 = !fix11; fix_stale = !stale } in
+  let p = { pool = c.pool; fix_c09 = !fix; fix_c11 = !fix11; fix_stale = !stale; fix_lc = !lc } in
   let evl = List.rev c.evs in
   let evs = List.map fst evl in
   let n = List.length evs in
@@ -197,6 +199,20 @@ let finish (c : case) =
   let v09 = int_of_n (c09_holdsb p evs (nat_of_int nb) (List.map nat_of_int c.lives)) in
   let v10 = int_of_n (c10_holdsb p evs) in
   let v11 = int_of_n (c11_holdsb p evs) in
+  (* C11 "holds the configuration most recently returned by its callback", on observables only:
+     at a quiescent observation with no Reload in flight, Runner.String() names the newest value *)
+  let v11 =
+    if v11 <> 0 then v11
+    else begin
+      let rec take n l = if n = 0 then [] else (match l with [] -> [] | x :: t -> x :: take (n - 1) t) in
+      let stale (idx, k) =
+        let pre = take idx evs in
+        let cbs = count (function ECallback (CbSome _) -> true | _ -> false) pre in
+        let opened = count (function EApiCall (OpReload, _) -> true | _ -> false) pre in
+        let closed = count (function EApiRet (OpReload, _, _) -> true | _ -> false) pre in
+        opened = closed && cbs > 0 && k <> cbs in
+      if List.exists stale c.helds then 30 else 0
+    end in
   let oops = List.exists (fun s -> s.oops) finals in
   if finals <> [] && !cover then begin
     match witness p (Array.of_list evs) with
@@ -217,7 +233,7 @@ let pool4 = List.map (fun i -> { c_name = n_of_int i; c_stop = NonBlocking; c_ex
 
 let do_membership o nw v =
   incr nmem;
-  let p = { pool = pool4; fix_c09 = false; fix_c11 = !fix11; fix_stale = false } in
+  let p = { pool = pool4; fix_c09 = false; fix_c11 = !fix11; fix_stale = false; fix_lc = true } in
   let cf l = List.map (fun x -> (x, N0)) (names_of l) in
   let m = membership_changed p (cf o) (cf nw) in
   if m then incr nmem_changed;
@@ -262,6 +278,7 @@ let () =
       | ["fix"; v] -> fix := (v = "1")
       | ["fix11"; v] -> fix11 := (v = "1")
       | ["stale"; v] -> stale := (v = "1")
+      | ["lc"; v] -> lc := (v = "1")
       | ["fuel"; v] -> fuel := int_of_string v
       | ["cap"; v] -> cap := int_of_string v
       | ["budget"; v] -> budget := float_of_string v
@@ -275,8 +292,10 @@ let () =
        match t with
        | "CASE" :: id :: fam :: "pool" :: _ :: specs ->
          cur := Some { id; family = fam; pool = List.map parse_spec specs; evs = []; blocked = ""; lives = [];
-                       parks = 0; outcome = "?"; notes = [] }
+                       parks = 0; outcome = "?"; notes = []; helds = [] }
        | "E" :: "Blocked" :: [b] -> (match !cur with Some c -> c.blocked <- b | None -> ())
+       | "E" :: "Held" :: [k] ->
+         (match !cur with Some c -> c.helds <- (List.length c.evs, int_of_string k) :: c.helds | None -> ())
        | "E" :: "Live" :: _ :: [k] -> (match !cur with Some c -> c.lives <- c.lives @ [int_of_string k] | None -> ())
        | "E" :: "Note" :: "park-reached" :: _ -> (match !cur with Some c -> c.parks <- c.parks + 1 | None -> ())
        | "E" :: "Note" :: _ -> ()
